@@ -1,6 +1,6 @@
 import CssVerif.Lib.Proto
 /-!
-# K5 — model of the profile registry `cssutils/profiles.py` (class `Profiles`, lines 100-450)
+# K5 — model of the profile registry `cssutils/profiles.py` (`_atomic` and class `Profiles`, lines 23-501)
 
 Hand transcription, statement by statement, of the code as it is NOW — after the fixes 86e5da6 (re-adding an
 existing name keeps the name listed once), 8a9e974 (remove-all resets the macro cache; re-adding a registered name
@@ -9,13 +9,13 @@ mutator that raises restores the registry). Strings are `List Nat` (code points)
 with Python's update discipline (`dset`: replace the value in place, else append), because the order of
 `_profilesProperties` is observable through `knownNames`.
 
-State (`profiles.py:104-115`): `_usedMacros`, `_profileNames`, `_rawProfiles`, `_profilesProperties`,
+State (`profiles.py:133-145`): `_usedMacros`, `_profileNames`, `_rawProfiles`, `_profilesProperties`,
 `_defaultProfiles`, `_knownNames`. A Python method that raises half way keeps the assignments it has already made —
 every function here returns the new state *and* the exception, if any; `atomic` is the decorator that undoes them.
 
 Regular-expression acceptance is not modelled: `accepts : CVal → Str → Bool` is a parameter (a callable that
 raises counts as `false`, which is what `validate` does when `log.raiseExceptions` is off). What *is* modelled is
-the macro expansion as real string substitution (`_expand_macros`, `profiles.py:152-164`).
+the macro expansion as real string substitution (`_expand_macros`, `profiles.py:182-194`).
 -/
 namespace CssVerif.Profiles
 open CssVerif.Proto
@@ -67,7 +67,7 @@ inductive Exc
   | diverges                -- the `while re.search(...)` loop is still running when the fuel ends
   deriving DecidableEq, Repr
 
-/-- `_rawProfiles[name]`: `addProfiles` first stores `{'macros': …}` only (`profiles.py:253`) -/
+/-- `_rawProfiles[name]`: `addProfiles` first stores `{'macros': …}` only (`profiles.py:288`) -/
 structure Raw where
   props : Option (Dict PVal)
   macros : Dict Str
@@ -87,7 +87,7 @@ structure Cfg where
   base : Dict Str                    -- `_TOKEN_MACROS.copy()` updated with `_MACROS`
   fuel : Nat
 
-/-! ## `_expand_macros` (`profiles.py:152-164`) -/
+/-! ## `_expand_macros` (`profiles.py:182-194`) -/
 
 def isLower (c : Nat) : Bool := 97 ≤ c && c ≤ 122
 def isNameCh (c : Nat) : Bool := isLower c || (48 ≤ c && c ≤ 57) || c == 45
@@ -138,7 +138,7 @@ def substSegs (m : Dict Str) : List Seg → Except Exc Str
 
 def subPass (m : Dict Str) (s : Str) : Except Exc Str := substSegs m (toks none s)
 
-/-- the `while` loop of line 160; Python has no bound — `fuel` passes, then `diverges` -/
+/-- the `while` loop of line 190; Python has no bound — `fuel` passes, then `diverges` -/
 def expandValue (m : Dict Str) : Nat → Str → Except Exc Str
   | 0, v => if hasPh v then .error .diverges else .ok v
   | f + 1, v =>
@@ -163,28 +163,28 @@ def expandDict (fuel : Nat) (m : Dict Str) : Dict PVal → Except Exc (Dict PVal
 /-- `'^(?:%s)$' % value` -/
 def wrapRe (s : Str) : Str := 94 :: 40 :: 63 :: 58 :: (s ++ [41, 36])
 
-/-- `_compile_regexes` (`profiles.py:166-177`) -/
+/-- `_compile_regexes` (`profiles.py:196-207`) -/
 def compileVal : PVal → CVal
   | .pat s => .re (wrapRe s)
   | .fn i => .fn i
 
 def compileDict (d : Dict PVal) : Dict CVal := d.map fun kv => (kv.1, compileVal kv.2)
 
-/-- `__update_knownNames` (`profiles.py:179-182`) -/
+/-- `__update_knownNames` (`profiles.py:209-212`) -/
 def knownOf (compiled : Dict (Dict CVal)) : List Str := compiled.flatMap fun kv => dkeys kv.2
 
 def updateKnown (r : Reg) : Reg := { r with known := knownOf r.compiled }
 
-/-! ## `_resetProperties` (`profiles.py:217-242`) -/
+/-! ## `_resetProperties` (`profiles.py:247-272`) -/
 
-/-- lines 224-225: `for profile in self._profileNames: macros.update(self._rawProfiles[profile]['macros'])` -/
+/-- lines 254-255: `for profile in self._profileNames: macros.update(self._rawProfiles[profile]['macros'])` -/
 def gatherMacros (raw : Dict Raw) : Dict Str → List Str → Except Exc (Dict Str)
   | m, [] => .ok m
   | m, p :: ps => match dget raw p with
       | none => .error (.keyError p)
       | some e => gatherMacros raw (dupdate m e.macros) ps
 
-/-- lines 233-239: rebuild `_profilesProperties` profile by profile; a failure keeps what has been rebuilt -/
+/-- lines 263-269: rebuild `_profilesProperties` profile by profile; a failure keeps what has been rebuilt -/
 def rebuild (fuel : Nat) (raw : Dict Raw) (m : Dict Str) :
     Dict (Dict CVal) → List Str → Dict (Dict CVal) × Option Exc
   | acc, [] => (acc, none)
@@ -211,24 +211,25 @@ def resetProperties (cfg : Cfg) (r : Reg) (newMacros : Option (Dict Str)) : Reg 
     | some e => ({ r with compiled := res.1 }, some e)
     | none => ({ r with compiled := res.1, used := m }, none)
 
-/-! ## `addProfile` (`profiles.py:298-358`) -/
+/-! ## `addProfile` (`profiles.py:298-358`) and `_atomic` (`profiles.py:23-48`) -/
 
-/-- lines 283-297: the macro environment; returns the registry and the macros stored for the profile -/
+/-- lines 327-340: the macro environment (not on the `replaced` path); returns the registry and the macros stored for the profile -/
 def addMacros (cfg : Cfg) (r : Reg) (profile : Str) (macros : Option (Dict Str)) : (Reg × Dict Str) × Option Exc :=
   if truthy macros then
     let ms := macros.getD []
-    -- line 285: would a known macro change?
+    -- line 329: would a known macro change?
     if (dkeys ms).any (fun k => (dget r.used k).isSome) then
       let res := resetProperties cfg r (some ms)
       ((res.1, ms), res.2)
     else (({ r with used := dupdate r.used ms }, ms), none)
   else
-    -- lines 294-297: "might have been set by addProfiles before"
+    -- lines 336-340: "might have been set by addProfiles before"
     ((r, match dget r.raw profile with
          | some e => e.macros
          | none => []), none)
 
-/-- lines 300-310: save name and raw definitions, expand with `_usedMacros`, compile, refresh the known names -/
+/-- lines 343-358 (not `replaced`): save name and raw definitions, expand with `_usedMacros`, compile, refresh the
+known names -/
 def addStore (cfg : Cfg) (r1 : Reg) (profile : Str) (properties : Dict PVal) (ms : Dict Str) : Reg × Option Exc :=
   let r2 : Reg := { r1 with
     names := if profile ∈ r1.names then r1.names else r1.names ++ [profile],
@@ -284,7 +285,7 @@ structure ProfileDef where
   macros : Option (Dict Str)
   deriving DecidableEq, Repr
 
-/-- lines 250-253 -/
+/-- lines 284-288 -/
 def preloadMacros (r : Reg) : List ProfileDef → Reg
   | [] => r
   | d :: ds =>
@@ -293,7 +294,7 @@ def preloadMacros (r : Reg) : List ProfileDef → Reg
       preloadMacros { r with used := dupdate r.used ms, raw := dset r.raw d.name { props := none, macros := ms } } ds
     else preloadMacros r ds
 
-/-- lines 256-257 -/
+/-- lines 290-292 -/
 def addEach (cfg : Cfg) (r : Reg) : List ProfileDef → Reg × Option Exc
   | [] => (r, none)
   | d :: ds =>
@@ -320,7 +321,7 @@ def addProfilesRaw (cfg : Cfg) (r : Reg) (l : List ProfileDef) : Reg × Option E
 def addProfiles (cfg : Cfg) (r : Reg) (l : List ProfileDef) : Reg × Option Exc :=
   atomic (fun r => addProfilesRaw cfg r l) r
 
-/-! ## `removeProfile` (`profiles.py:312-349`) -/
+/-! ## `removeProfile` (`profiles.py:360-400`) -/
 
 /-- `removeProfile(all=True)`: clears the tables and puts the macro cache back to the base macros -/
 def removeAll (cfg : Cfg) (r : Reg) : Reg :=
@@ -375,7 +376,7 @@ def insertSorted (x : Str) : List Str → List Str
 /-- `sorted(...)` on strings (code-point order) -/
 def sortStrs (l : List Str) : List Str := l.foldr insertSorted []
 
-/-- `propertiesByProfile` (`profiles.py:351-366`), consumed completely -/
+/-- `propertiesByProfile` (`profiles.py:402-417`), consumed completely -/
 def propsOfProfiles (compiled : Dict (Dict CVal)) : List Str → Except Exc (List Str)
   | [] => .ok []
   | p :: ps => match dget compiled p with
@@ -387,7 +388,7 @@ def propsOfProfiles (compiled : Dict (Dict CVal)) : List Str → Except Exc (Lis
 def propertiesByProfile (r : Reg) (profiles : Option (List Str)) : Except Exc (List Str) :=
   propsOfProfiles r.compiled (sortStrs (if truthy profiles then profiles.getD [] else r.names))
 
-/-- the loop of `validate` (`profiles.py:380-392`) -/
+/-- the loop of `validate` (`profiles.py:431-443`) -/
 def validateLoop (accepts : CVal → Str → Bool) (compiled : Dict (Dict CVal)) (name value : Str) :
     List Str → Except Exc Bool
   | [] => .ok false
@@ -400,7 +401,7 @@ def validateLoop (accepts : CVal → Str → Bool) (compiled : Dict (Dict CVal))
 def validate (accepts : CVal → Str → Bool) (r : Reg) (name value : Str) : Except Exc Bool :=
   validateLoop accepts r.compiled name value r.names
 
-/-- the two search loops of `validateWithProfile` (`profiles.py:424-442`): first profile that defines the
+/-- the two search loops of `validateWithProfile` (`profiles.py:475-493`): first profile that defines the
 name and accepts the value -/
 def firstAccepting (accepts : CVal → Str → Bool) (compiled : Dict (Dict CVal)) (name value : Str) :
     List Str → Except Exc (Option Str)
@@ -432,7 +433,7 @@ def validateWithProfile (accepts : CVal → Str → Bool) (r : Reg) (name value 
       | .ok none =>
         .ok ⟨false, false, sortStrs (dkeys (r.compiled.filter fun kv => (dget kv.2 name).isSome))⟩
 
-/-! ## `__init__` (`profiles.py:100-150`) -/
+/-! ## `__init__` (`profiles.py:129-180`) -/
 
 def empty (cfg : Cfg) : Reg :=
   { used := cfg.base, names := [], raw := [], compiled := [], default := none, known := [] }
